@@ -45,11 +45,17 @@ const (
 	eReadMessage           // ReadMessage, then HandleControlMessage on what it returned
 	eReadDataTop           // ReadData: control frame before a data message
 	eReadDataInter         // ReadData: control frame between the fragments of a data message
+	eReadTextSkip          // ReadClientText/ReadServerText: control frame inside a fragmented binary message that is skipped
+	eReadBinarySkip        // ReadClientBinary/ReadServerBinary: control frame inside a fragmented text message that is skipped
+	eDiscardFresh          // Reader+ControlFrameHandler as OnIntermediate: NextFrame, Discard(); control frame inside the discarded message
+	eDiscardPartial        // the same after a partial Read of the first fragment
 	numEntries
 )
 
 var entryNames = [...]string{"Handle/raw-src", "Handle/plain-src", "ControlFrameHandler/top", "ControlFrameHandler/OnIntermediate",
-	"HandleControlMessage", "Handle{Client,Server}ControlMessage", "ReadMessage+HandleControlMessage", "ReadData/top", "ReadData/intermediate"}
+	"HandleControlMessage", "Handle{Client,Server}ControlMessage", "ReadMessage+HandleControlMessage", "ReadData/top", "ReadData/intermediate",
+	"Read{Client,Server}Text/inside-skipped-message", "Read{Client,Server}Binary/inside-skipped-message",
+	"Reader.Discard/after-NextFrame", "Reader.Discard/after-partial-read"}
 
 type ctlCase struct {
 	Op      byte
@@ -222,6 +228,42 @@ func (c ctlCase) run() (written []byte, err error, trouble string) {
 		if err == nil && string(data) != "abcd" {
 			trouble = fmt.Sprintf("message around the control frame delivered as %q", data)
 		}
+	case eReadTextSkip, eReadBinarySkip:
+		skipped, wanted := byte(ref.OpBinary), byte(ref.OpText)
+		if c.Entry == eReadBinarySkip {
+			skipped, wanted = ref.OpText, ref.OpBinary
+		}
+		first := c.dataFrame(skipped, false, "ab")
+		wire := ref.EncodeAll([]ref.Frame{first, in, c.dataFrame(ref.OpCont, true, "cd"), c.dataFrame(wanted, true, "hi")})
+		rw := tx.RW{Reader: c.src(wire, len(first.Encode())+hdrLen), Writer: rec}
+		var data []byte
+		switch {
+		case c.Entry == eReadTextSkip && c.Server:
+			data, err = wsutil.ReadClientText(rw)
+		case c.Entry == eReadTextSkip:
+			data, err = wsutil.ReadServerText(rw)
+		case c.Server:
+			data, err = wsutil.ReadClientBinary(rw)
+		default:
+			data, err = wsutil.ReadServerBinary(rw)
+		}
+		if err == nil && string(data) != "hi" {
+			trouble = fmt.Sprintf("message after the skipped one delivered as %q", data)
+		}
+	case eDiscardFresh, eDiscardPartial:
+		first := c.dataFrame(ref.OpText, false, "ab")
+		wire := ref.EncodeAll([]ref.Frame{first, in, c.dataFrame(ref.OpCont, true, "cd")})
+		rd := &wsutil.Reader{Source: c.src(wire, len(first.Encode())+hdrLen), State: state, OnIntermediate: wsutil.ControlFrameHandler(rec, state)}
+		if _, herr := rd.NextFrame(); herr != nil {
+			return nil, nil, fmt.Sprintf("NextFrame on a valid text frame: %v", herr)
+		}
+		if c.Entry == eDiscardPartial {
+			var b [1]byte
+			if n, rerr := rd.Read(b[:]); n != 1 || rerr != nil || b[0] != 'a' {
+				return nil, nil, fmt.Sprintf("first Read of the fragmented message: %d bytes %q, %v", n, b[:n], rerr)
+			}
+		}
+		err = rd.Discard()
 	}
 	return rec.Bytes(), err, trouble
 }
@@ -532,7 +574,7 @@ func TestPingPongAllLengths(t *testing.T) {
 		}
 	}
 	hx.EvalN(n)
-	hx.Part("ping/pong: payload length 0..125 x side x 9 entry points x 3 transport chunkings x last chunk with/without EOF", int64(n), true)
+	hx.Part("ping/pong: payload length 0..125 x side x every entry point x 3 transport chunkings x last chunk with/without EOF", int64(n), true)
 	tl.flush("enum/")
 }
 
@@ -580,7 +622,7 @@ func TestCloseAllCodes(t *testing.T) {
 	}
 	hx.EvalN(n)
 	if hx.Thorough() {
-		hx.Part("close: all 65536 codes x {no, valid, invalid} reason x side x 9 entry points", int64(n), true)
+		hx.Part("close: all 65536 codes x {no, valid, invalid} reason x side x every entry point", int64(n), true)
 	} else {
 		hx.Part("close: all 65536 codes x {no, valid, invalid} reason x side (entry point rotating with the code)", int64(n), true)
 	}
@@ -635,7 +677,7 @@ func TestCloseBoundaries(t *testing.T) {
 		}
 	}
 	hx.EvalN(n)
-	hx.Part("close: empty, all 256 one-byte payloads, 30 boundary codes x 5 reasons, every length 2..125 x side x 9 entry points x 2 chunkings", int64(n), true)
+	hx.Part("close: empty, all 256 one-byte payloads, 30 boundary codes x 5 reasons, every length 2..125 x side x every entry point x 2 chunkings", int64(n), true)
 	tl.flush("enum/")
 }
 
